@@ -13,6 +13,14 @@ def conventions(chk, verdicts):
             chk.violation({"property": "C20", "kind": "spec-fails-on-implementation", "desc": s["desc"], "failure": e,
                            "explain": "the callback of the given shape was invoked in the wrong calling convention (harness/trace.py make_callback)",
                            "signature": {"failure": "calling-convention", "kind": e["kind"]}})
+    kept = 0
+    for s, v in verdicts:
+        kept += s.get("callback_arrays_kept", 0)
+        if s.get("callback_arrays_modified_later"):
+            chk.violation({"property": "C20", "kind": "spec-fails-on-implementation", "desc": s["desc"],
+                           "failure": f"the array handed to the callback at call {s['callback_arrays_modified_later'][0]} was modified by the solver afterwards (it is the user's to keep)",
+                           "signature": {"failure": "callback-array-aliased"}})
+    chk.coverage["callback_arrays_checked_unchanged_at_the_end"] = kept
     chk.coverage["runs_checked_for_calling_convention"] = n
 
 
